@@ -228,7 +228,11 @@ class Ctx:
         """Run fn() once per feasible path; returns the list of Path objects."""
         self.pending = [[]]
         out = []
+        from . import patcher as _pt
+        tracing = _pt.TRACE.active
         while self.pending:
+            if tracing and len(out) == _pt.TRACE.TRACED_PATHS:
+                _pt.TRACE.pause()
             prefix = self.pending.pop()
             self.prefix = prefix
             self.trace = []
@@ -253,6 +257,8 @@ class Ctx:
         self.trace = []
         self.pc = []
         self.probs = []
+        if tracing:
+            _pt.TRACE.resume()
         return out
 
 
